@@ -336,9 +336,9 @@ deriving DecidableEq, Repr
 def touchRule (fn : String) : Option Rule :=
   if fn ∈ ["set_value", "set_string", "set_string_ex"] then some .always
   else if fn ∈ ["zadd", "zincrby", "hset", "hdel", "hincrby", "append", "incr_by", "incr", "ltrim", "lset",
-                "lpush", "rpush", "xadd", "xadd_with_id", "setrange", "expire", "pexpire"] then some .ifPresent
+                "lpush", "rpush", "xadd", "xadd_with_id", "setrange", "expire", "pexpire", "rename"] then some .ifPresent
   else if fn ∈ ["set_string_nx", "set_string_nx_ex", "delete", "lpop", "rpop", "lrem", "sadd", "srem", "spop",
-                "zrem", "xdel", "xtrim", "rename", "persist", "get", "expiration_cleanup_loop"] then some .ifChanged
+                "zrem", "xdel", "xtrim", "persist", "get", "expiration_cleanup_loop"] then some .ifChanged
   else none
 
 /-- The effect the model attributes to an observed call: `done` (the command performed the call and it
